@@ -11,6 +11,7 @@
 (*   out:x:o                     InstReturn(x, o)                                            *)
 (*   tick                        TickT                                                       *)
 (*   grant:anon#n                TimerCb(n)                                                  *)
+(*   cancelroot:c                CancelRoot(c)                                               *)
 (*                                                                                           *)
 (* The transient steps (Ret, Snap, select wake-ups, exit callbacks) that the real goroutines  *)
 (* perform within the same controller step are taken eagerly by action composition.  The      *)
@@ -31,6 +32,7 @@ XReset ==
     /\ wch' = [p \in Procs |-> "none"] /\ wcanc' = [p \in Procs |-> FALSE]
     /\ chmap' = <<>> /\ nch' = 0
     /\ pend' = [p \in Procs |-> <<>>]
+    /\ ctxdead' = {}
 
 TInit == Init /\ l = 1 /\ drift = <<>> /\ live = TRUE
 
@@ -54,6 +56,7 @@ Kind(lbl) ==
       [] Pre(lbl, "grant:anon#") -> "timercb"
       [] Pre(lbl, "out:") -> "out"
       [] lbl = "tick" -> "tick"
+      [] Pre(lbl, "cancelroot:") -> "cancelroot"
       [] OTHER -> "?"
 Arg(lbl) ==
     CASE Pre(lbl, "call:c") -> Num(lbl, 7, 0)
@@ -62,6 +65,7 @@ Arg(lbl) ==
       [] Pre(lbl, "grant:routine.execute#") -> Num(lbl, 23, 0)
       [] Pre(lbl, "grant:anon#") -> Num(lbl, 12, 0)
       [] Pre(lbl, "out:") -> Num(lbl, 5, 0)
+      [] Pre(lbl, "cancelroot:") -> Num(lbl, 12, 0)
       [] OTHER -> 0
 
 \* ---- enabledness of the step the controller took ------------------------------------------------
@@ -74,6 +78,7 @@ CanAct(k, a, o) ==
       [] k = "grantx"  -> a \in Gs /\ g[a].pc \in {"spawned", "rec"}
       [] k = "out"     -> a \in Gs /\ g[a].pc = "running" /\ o \in {"ok", "err", "ctxret"} /\ (o = "ctxret" => g[a].canc)
       [] k = "tick"    -> Retry
+      [] k = "cancelroot" -> RootCancel /\ a \in 1..2 /\ a \notin ctxdead
       [] k = "timercb" -> \E u \in 1..Len(timers) : timers[u].st = "fired" /\ timers[u].cbn = a
       [] OTHER -> FALSE
 
@@ -90,6 +95,7 @@ Act(k, a, o) ==
                                       => ((g'[a].pc = "running") = NextIsDeadEnter)
          [] k = "out"     -> InstReturn(a, o)
          [] k = "tick"    -> TickT
+         [] k = "cancelroot" -> CancelRoot(a)
          [] k = "timercb" -> TimerCb(a)
 
 \* one transient step (least process / goroutine first), or nothing
